@@ -1254,6 +1254,158 @@ def check_divisions(cx, iid="C03.D"):
 
 
 # =================================================================================================
+# C03.O shift amounts
+
+
+def _peel_single(b, op):
+    """follow single-definition copies and integer casts of an operand back to the operand they were computed from"""
+    for _ in range(6):
+        if op["k"] not in ("copy", "move") or op["pl"]["p"]:
+            return op
+        l = op["pl"]["l"]
+        ds = b.defs.get(l, [])
+        if len(ds) != 1 or ds[0][1] != "assign":
+            return op
+        rv = ds[0][2]["rv"]
+        if rv["k"] == "use":
+            op = rv["op"]
+        elif rv["k"] == "cast" and rv.get("ck") == "IntToInt" and not rv.get("from", "").startswith("i"):
+            op = rv["op"]
+        else:
+            return op
+    return op
+
+
+def _excl_upper_bound(cx, b, e, depth=0):
+    """an exclusive upper bound of the unsigned value of expression e, or None: constants, x % c, x & c, a + c, min,
+    loop variables of literal-bounded ranges (also reversed), multi-definition locals (maximum over the definitions)"""
+    if depth > 6:
+        return None
+    R = cx.D
+    if e[0] == "cast":
+        return _excl_upper_bound(cx, b, e[2], depth + 1)
+    if e[0] == "const":
+        try:
+            return int(str(e[1])) + 1
+        except ValueError:
+            try:
+                return R.const_int(str(e[3] or e[1])) + 1
+            except Exception:
+                return None
+    if e[0] == "bin" and e[1] == "Rem":
+        c = _excl_upper_bound(cx, b, e[3], depth + 1)
+        return c - 1 if c and c > 1 else None
+    if e[0] == "bin" and e[1] == "BitAnd":
+        cs = [x for x in (_excl_upper_bound(cx, b, e[2], depth + 1), _excl_upper_bound(cx, b, e[3], depth + 1)) if x]
+        return min(cs) if cs else None
+    if e[0] == "bin" and e[1] in ("Add", "AddWithOverflow"):
+        a, c = _excl_upper_bound(cx, b, e[2], depth + 1), _excl_upper_bound(cx, b, e[3], depth + 1)
+        return a + c - 1 if a and c else None
+    if e[0] == "call" and e[1].split("::")[-1] == "min" and len(e[2]) == 2:
+        cs = [x for x in (_excl_upper_bound(cx, b, e[2][0], depth + 1), _excl_upper_bound(cx, b, e[2][1], depth + 1)) if x]
+        return min(cs) if cs else None
+    sh = show(e)
+    m = re.fullmatch(r"(?:Range|Rev|RangeInclusive)::next\(var(\d+)\)@Some\.0", sh)
+    if m:
+        K = int(m.group(1))
+        for l2, kind, node in b.defs.get(K, []):
+            ce = b.call_expr(node) if kind == "call" else b.rvalue_expr(node["rv"]) if kind == "assign" else None
+            for _ in range(3):
+                if ce and ce[0] == "call" and ce[1].split("::")[-1] in ("into_iter", "rev") and ce[2]:
+                    ce = ce[2][0]
+            if ce and ce[0] == "agg" and ce[1] == "Range":
+                return _excl_upper_bound_hi(cx, b, ce[2][1], depth + 1)
+        return None
+    m = re.fullmatch(r"var(\d+)", sh)
+    if m:
+        K = int(m.group(1))
+        bs = []
+        for l2, kind, node in b.defs.get(K, []):
+            ce = b.rvalue_expr(node["rv"]) if kind == "assign" else b.call_expr(node) if kind == "call" else None
+            x = _excl_upper_bound(cx, b, ce, depth + 1) if ce else None
+            if x is None:
+                return None
+            bs.append(x)
+        return max(bs) if bs else None
+    return None
+
+
+def _excl_upper_bound_hi(cx, b, hi, depth):
+    """the loop variable of lo..hi is < hi: an exclusive bound of the variable is an inclusive bound of hi"""
+    x = _excl_upper_bound(cx, b, hi, depth)
+    return x - 1 if x else None
+
+
+def check_shifts(cx, iid="C03.O"):
+    """T6: `a << n` / `a >> n` with n >= the bit width of a panics in builds with overflow checks and silently uses
+    n mod width otherwise.  Every shift whose amount is not a literal below the width has its amount bounded below the
+    width: by the bit-width analysis (x % 64, x & 63, a field that only ever holds min(.., c)), by an established
+    `amount < c` on every path, or by the literal bound of the range the amount is drawn from."""
+    D = cx.D
+    bw = BitWidth(D)
+    with cx.instance(iid, "T6 shift inventory", "every shift amount that is not a literal is bounded below the operand's bit width on every path", floor=8, exact_floor=False) as inst:
+        nlit = 0
+        for b in D.all_bodies():
+            fa = None
+            for bb in sorted(b.reachable):
+                t = b.term(bb)
+                if t["k"] != "assert" or str(t.get("msg")) not in ("Overflow(Shl)", "Overflow(Shr)"):
+                    continue
+                ce = b.operand_expr(t["cond"])
+                if not (ce[0] == "bin" and ce[1] == "Lt"):
+                    continue
+                try:
+                    W = int(show(ce[3]))
+                except ValueError:
+                    continue
+                amt = ce[2]
+                while amt[0] == "cast":
+                    amt = amt[2]
+                if amt[0] == "const":
+                    nlit += 1
+                    continue
+                loc = Loc(bb, len(b.stmts(bb)))
+                status = None
+                # (a) bit-width analysis on the MIR operand
+                cop = t["cond"]
+                cdef = b.defs.get(cop["pl"]["l"], []) if cop["k"] in ("copy", "move") and not cop["pl"]["p"] else []
+                if len(cdef) == 1 and cdef[0][1] == "assign" and cdef[0][2]["rv"]["k"] == "bin":
+                    aop = _peel_single(b, cdef[0][2]["rv"]["a"])
+                    w = bw.operand(b, aop, ())
+                    if (1 << w) <= W:
+                        status = "bit-width analysis: amount < 2^%d <= %d" % (w, W)
+                # (b) structural bound
+                if not status:
+                    ub = _excl_upper_bound(cx, b, amt)
+                    if ub is not None and ub <= W:
+                        status = "amount < %d by construction" % ub
+                # (c) established comparison
+                if not status:
+                    fa = fa or cx.fa(b)
+                    a_s = show(amt)
+                    for alt in [fa.at(loc) or []]:
+                        ok = bool(alt)
+                        for a in alt:
+                            good = False
+                            for lit in a:
+                                m = re.fullmatch(r"l([te])\((.*),(\d+)\)", lit)
+                                if m and m.group(2) in (a_s, "cast<usize>(%s)" % a_s, "cast<u32>(%s)" % a_s, "cast<u64>(%s)" % a_s) and int(m.group(3)) + (1 if m.group(1) == "e" else 0) <= W:
+                                    good = True
+                            ok = ok and good
+                        if ok:
+                            status = "guarded: amount < %d on every path" % W
+                # (d) a channel id: validated (< CHANNEL_COUNT) where it enters, stored only from validated packets
+                if not status and show(amt).endswith(".channel_id") and "PacketReceiver::" in b.path and D.const_int("CHANNEL_COUNT") <= W:
+                    st2, _why = _lk_channel_index(cx, inst, b, loc, show(amt))
+                    if st2:
+                        status = "channel id < CHANNEL_COUNT: " + st2
+                inst.site(b, loc, "%s by %s" % (t["msg"], norm_vars(show(amt))[:70]), {"status": status, "width": W})
+                if not status:
+                    inst.violation(b.path, "shift by " + norm_vars(show(amt))[:70], "shift whose amount `%s` is not bounded below the operand's %d bits on every path: panics under overflow checks, shifts by the amount modulo %d otherwise" % (show(amt)[:120], W, W), at=b.span_at(loc))
+        inst.note("%d shifts by a literal amount below the width (checked by rustc itself)" % nlit)
+
+
+# =================================================================================================
 # C03.V validity guards
 
 
@@ -1922,6 +2074,7 @@ def run(cx):
     check_parser(cx)
     check_index_inventory(cx)
     check_divisions(cx)
+    check_shifts(cx)
     # the loop and index arguments above rest on definitions elsewhere: `packet_id::is_valid(x)` as a loop-bound
     # guard is only as good as is_valid's own definition (x <= MASK), and the fragment-buffer indices are in range
     # only if the buffer is created for exactly last_fragment_id + 1 fragments, computed without overflow
@@ -1940,6 +2093,12 @@ def run(cx):
 
 
 SELFTEST = [
+    {"name": "resend back-off exponent no longer capped: the shift amount is unbounded",
+     "edits": [{"file": "src/half_connection/mod.rs", "old": "let new_send_count = (entry.send_count + 1).min(MAX_SEND_COUNT);", "new": "let new_send_count = entry.send_count + 1;"}],
+     "expect": ["C03.O"]},
+    {"name": "ack bit beyond the group's width tested without the < 32 guard",
+     "edits": [{"file": "src/half_connection/frame_ack_queue.rs", "old": "                if bit < 32 {", "new": "                if bit < 64 {"}],
+     "expect": ["C03.O"]},
     {"name": "F14 reintroduced: the window loop passes an entry whose data flag is set",
      "edits": [{"file": "src/half_connection/packet_receiver/mod.rs",
                 "old": "                        if self.data_flags[flags_index] & flag_bit != 0 {\n",
